@@ -150,6 +150,23 @@ def eval_e(x, args, xargs, env):
     raise ValueError(e)
 
 
+def _arity(p):
+    """number of positional parameters of a static program term (largest arg index used)."""
+    m = 0
+
+    def walk(x):
+        nonlocal m
+        if x["e"] == "arg":
+            m = max(m, x["i"])
+        for k in x["k"]:
+            walk(k)
+    for s in p["sites"]:
+        for a in s["args"]:
+            walk(a)
+    walk(p["ret"])
+    return m
+
+
 def addr_py(addr):
     return addr[0] if len(addr) == 1 else tuple(addr)
 
@@ -176,10 +193,19 @@ def build(p):
                 env.append(callee(*conv_call_args(cterm, a)) @ addr)
             return eval_e(ret, args, (), env)
 
-        return genjax.gen(body)
+        n = _arity(p)
+        named = {0: lambda: body(), 1: lambda a0: body(a0), 2: lambda a0, a1: body(a0, a1),
+                 3: lambda a0, a1, a2: body(a0, a1, a2)}.get(n)
+        return genjax.gen(named if named is not None else body)
     sub = [build(q) for q in p["subs"]]
     if k == "closure":
         stored = [val_to_py(v) for v in p["x"]]
+        if p["n"] == 1:
+            return sub[0].partial_apply(*stored)
+        if p["n"] == 2:      # stored values as the trailing keyword arguments a<i>
+            n = _arity(p["subs"][0])
+            kw = {f"a{n - len(stored) + j}": v for j, v in enumerate(stored)}
+            return sub[0](**kw)
         return sub[0](*stored)
     if k == "vmap":
         axes = tuple(0 if a == 1 else None for a in p["x"])
@@ -237,8 +263,22 @@ def call_args(p, argsV, concrete=False):
 
 
 def proj_args(p, args):
-    """implementation argument tuple -> abstract values (inverse of call_args)."""
+    """implementation argument tuple -> abstract values (inverse of call_args).  For closures the abstract
+    trace arguments are the EXTRA arguments: the stored ones are checked and stripped."""
     import numpy as np
+    if p["k"] == "closure":
+        ns = len(p["x"])
+        if p["n"] == 1:                      # partial_apply: the trace holds the extra arguments only
+            return [proj_val(x) for x in args]
+        if p["n"] == 2:                      # kwargs: the trace holds (positional args, {name: value})
+            pos, kw = args
+            vals = [proj_val(kw[k]) for k in sorted(kw)]
+            if vals != list(p["x"]):
+                return [{"t": "n", "i": 7, "k": []}]
+            return [proj_val(x) for x in pos]
+        if [proj_val(x) for x in args[:ns]] != list(p["x"]):
+            return [{"t": "n", "i": 7, "k": []}]
+        return [proj_val(x) for x in args[ns:]]
     out = [proj_val(x) for x in args]
     if p["k"] == "mix":
         l2 = np.asarray(args[0], dtype=np.float64) / LN2
